@@ -558,7 +558,15 @@ class DiscreteWorld(SpaceWorld):
             The generator used to populate the cell component. If a obj is supplied, it must have the ``__call__``
             method implemented. If a ``numpy.ndarray`` or ``list`` is used, it must be 1-dimensional and of size
             ``width * height * depth``.
+
+        Raises
+        ------
+        ValueError
+            If ``name`` is ``'pos'``, the name under which the environment stores the cells' coordinates.
         """
+        if name == 'pos':
+            raise ValueError("'pos' holds the cells' coordinates and cannot be used as the name of a cell component.")
+
         if isinstance(generator, np.ndarray):
             self.cells[name] = np.copy(generator)
         elif isinstance(generator, list):
@@ -584,7 +592,7 @@ class DiscreteWorld(SpaceWorld):
         ComponentNotFoundError
             If no cell component with the specified name can be found.
         """
-        if name not in self.cells:
+        if name == 'pos' or name not in self.cells:  # 'pos' is the cells' own coordinate column, not a cell component
             raise ComponentNotFoundError(self, name)
         else:
             self.cells.drop(columns=[name], inplace=True)
